@@ -14,5 +14,5 @@ echo "== $prop $(basename $(dirname $patch))/$(basename $patch) rc=$rc"
 grep -E "^(VIOLATION|OK|KNOWN-FINDING|FRAMEWORK-ERROR)" "$vc/out.txt" | cut -c1-400
 grep -A2 "^VIOLATION" "$vc/out.txt" | sed -n 2,3p | cut -c1-400
 mkdir -p /tmp/eval-replays && cp "$vc"/replays/* /tmp/eval-replays/ 2>/dev/null
-git -C /repo worktree remove --force "$wt"; rm -rf "$vc"
+git -C /repo worktree remove --force "$wt"; chattr -R -i "$vc" 2>/dev/null; rm -rf "$vc"
 exit $rc
